@@ -2,6 +2,7 @@ package media
 
 import (
 	"github.com/cnotch/ipchub/av/format/rtp"
+	"github.com/cnotch/ipchub/utils"
 	"github.com/cnotch/xlog"
 )
 
@@ -18,7 +19,7 @@ func VerifReset() {
 // only threads are the publisher, the API callers and the delivery goroutines.
 func VerifNewBareStream(path string) *Stream {
 	return &Stream{
-		path:       path,
+		path:       utils.CanonicalPath(path),
 		status:     StreamOK,
 		attrs:      map[string]string{},
 		logger:     xlog.L(),
